@@ -71,12 +71,26 @@ def _cases(draw, tier):
     if len(ranges) < 2:
         return {'skip': 'could not place two ranges', 'isa': cfg}
     zones = {k: v for k, v in isa.zones.items() if k != 'GLOBAL'}
+    # zones cut to measure: some ranges end exactly on the last (or start on the first) address of a zone of their own
+    tailored = {}
+    for idx, (s, ln, rel) in enumerate(ranges):
+        if draw(st.integers(0, 3)) == 0 and len(tailored) < 3:
+            zs_ = max(lo, s - draw(st.sampled_from([0, 0, 1, 3])))
+            ze_ = min(hi, s + ln - 1 + draw(st.sampled_from([0, 0, 0, 1, 5])))
+            tailored[f'T{idx}'] = (zs_, ze_)
+    if tailored:
+        zl = cfg.setdefault('predefined', {}).setdefault('memory_zones', [])
+        for zn, (a, b) in tailored.items():
+            zl.append({'name': zn, 'start': a, 'end': b})
+        zones.update(tailored)
     pieces = []
     blocks = []
     for idx, (s, ln, rel) in enumerate(ranges):
         kind = draw(st.sampled_from(['byte', 'byte', 'fill', 'zero', 'jmp', 'block', '2byte']))
         org = {'t': 'org', 'e': isagen._lit(s, draw)}
         zs = [zn for zn, (a, b) in zones.items() if a <= s and s + ln - 1 <= b]
+        if f'T{idx}' in tailored:
+            zs = [f'T{idx}'] * 3 + zs
         if zs and draw(st.booleans()):
             zn = draw(st.sampled_from(zs))
             org = {'t': 'org', 'e': isagen._lit(s - zones[zn][0], draw), 'zone': zn}
@@ -116,7 +130,8 @@ def _cases(draw, tier):
     if blocks:
         cfg.setdefault('predefined', {})['data'] = blocks
     return {'isa': cfg, 'items': items, 'lo': lo, 'relations': [r[2] for r in ranges], 'nzero': nzero,
-            'fill': draw(st.sampled_from([0, 0xEE]))}
+            'fill': draw(st.sampled_from([0, 0xEE])), 'tailored_zones': len(tailored),
+            'mode': draw(st.sampled_from(['binary', 'binary', 'no-binary']))}
 
 
 def strategy(tier):
@@ -138,6 +153,10 @@ def execute(case, ctx):
     except R.Unspecified as u:
         return Outcome(classes=['unspecified:' + str(u).split(':')[0]], evals=0, excluded=['unspecified: ' + str(u).split(':')[0]])
     argv = ['compile', '-c', fname, '-o', 'out.bin', '-s', str(lo), '-e', str(hi), '-f', str(case['fill']), 'main.asm']
+    nobin = case.get('mode') == 'no-binary'
+    if nobin:
+        # overlap is an error whether or not an image is asked for
+        argv = ['compile', '-c', fname, '-n', '-p', '-t', 'intel_hex', '--pretty-print-output', 'pp.txt', 'main.asm']
     res = runner.run_forked(argv, files)
     detail = {'source': files['main.asm'], 'general': cfg['general'], 'predefined': cfg.get('predefined'), 'argv': argv,
               'relations': case['relations'], 'model': verdict if verdict == 'accepted' else 'rejected: ' + lay,
@@ -156,13 +175,14 @@ def execute(case, ctx):
         findings.append(Finding('C04/overlap-silently-accepted' + ztag, detail))
     elif verdict != 'accepted' and res.klass == 'accepted':
         findings.append(Finding('C04/invalid-program-accepted', detail))
-    elif verdict == 'accepted':
+    elif verdict == 'accepted' and not nobin:
         detail['expected_image'] = want.hex()
         if res.outputs.get('out.bin') != want:
             findings.append(Finding('C04/wrong-image' + ztag, detail))
     rels = set(case['relations'])
     nt = bool(rels - {'first', 'far'}) or case['nzero'] > 0
     classes = ['model:' + ('overlap' if overlap_expected else verdict), 'outcome:' + res.klass] + \
-              ['rel:' + r for r in sorted(rels)] + (['zero-length-lines'] if case['nzero'] else [])
+              ['rel:' + r for r in sorted(rels)] + (['zero-length-lines'] if case['nzero'] else []) + \
+              (['mode:no-binary'] if nobin else []) + (['zones-cut-to-measure'] if case.get('tailored_zones') else [])
     sample = {'source': files['main.asm'], 'relations': case['relations'], 'model': detail['model']}
     return Outcome(findings, nt, classes, 1, sample=sample)
